@@ -27,6 +27,10 @@ def plan(tier, seed):
 
 def make_case(rng):
     case = gen.long_molecule_case(rng, nq=rng.randint(6, 12)) if rng.random() < 0.15 else gen.pipeline_case(rng, CLASSES, param_prob=0.0)
+    if rng.random() < 0.05:
+        gen.add_contig_sized_query(rng, case)
+    if rng.random() < 0.04:
+        case = gen.far_reference_case(rng)
     P = case['params']
     if rng.random() < 0.7:
         P['sp'] = rng.choice([1000, 800, 1500, 600])
